@@ -138,33 +138,22 @@ def r2_r3(ctx, cfg, R2="C16.R2", R3="C16.R3"):
             ok = rec0[0] == "upd" and any(p == ("stake",) and contains(v, lambda x: x[0] == "call" and x[1].endswith("Uint128::mul_floor")) for p, v in rec0[2])
     ctx.ob(R2, key, "total-stake=floor(stake*(1-p))", ok, "validator total is not stake.mul_floor(1 - percentage)", fn=f, sample="validator_info.stake.mul_floor(Decimal::one() - percentage)")
     # (b) stakers: closure of STAKES.update multiplies `stake` by the factor and touches nothing else
-    clos = [g for g in F.lexical(key) if g.kind == "closure"]
-    staker_cl = None
-    queue_cl = None
-    filt_cl = None
-    for g in clos:
-        use = P.closure_use(g)
-        if use is None:
-            continue
-        ck = use[2]["callee"]["key"]
-        if ck == "cw_storage_plus::Map::update":
-            staker_cl = (g, use)
-    ok = staker_cl is not None
-    d = "no STAKES.update closure"
+    # (b) stakers: each existing entry is updated in place - `STAKES.update(key, |e| ..)` or load / modify / save (rules/stakes.py) -
+    # by multiplying `stake` with the factor, and nothing else of the entry changes
+    from rules import stakes
+    ups = stakes.entry_updates(P, F, f)
+    ok = len(ups) == 1
+    d = "%d in-place updates of STAKES entries" % len(ups)
     if ok:
-        g, use = staker_cl
-        ma = [(b, t) for b, t in g.calls() if t["callee"].get("trait") in ("std::ops::MulAssign", "std::ops::Mul")]
-        writes = [(b, i, st) for b, i, st in g.stmts() if st["k"] == "assign" and st["dst"]["p"] and st["dst"]["p"][-1]["k"] == "field" and
-                  st["dst"]["p"][-1].get("of", "").startswith("staking::Shares")]
-        ok = len(ma) == 1
+        u = ups[0]
+        ops = u.ops()
+        d = "; ".join("%s.%s %s" % (fld, op.rsplit("::", 1)[-1], fmt(v)[:60]) for op, fld, v in ops) or str(sorted(map(str, u.changes)))
+        mul = [o for o in ops if o[0].endswith(("MulAssign::mul_assign",)) and o[1] == "stake" and _is_factor(o[2])]
+        setmul = "stake" in u.changes and contains(u.changes["stake"], lambda x: x[0] == "call" and x[1].endswith("Mul::mul") and
+                                                   contains(x[2][0], lambda y: y[0] == "field" and y[2] == "stake") and _is_factor(x[2][1]))
+        ok = (len(mul) == 1 and set(u.changes) == {("&mut", "stake")} and len(ops) == 1) or (setmul and set(u.changes) == {"stake"})
         if ok:
-            a = P.call_args(g, ma[0][1], ma[0][0])
-            d = "%s %s= %s" % (fmt(a[0])[:60], ma[0][1]["callee"]["name"], fmt(a[1])[:60])
-            ok = contains(a[0], lambda x: x[0] == "field" and x[2] == "stake") and not contains(a[0], lambda x: x[0] == "field" and x[2] == "rewards") and _is_factor(a[1])
-            ok = ok and all(st["dst"]["p"][-1]["name"] == "stake" for b, i, st in writes)
             n += 1
-        ua = P.call_args(use[0], use[2], use[1])
-        ok = ok and peel(ua[0]) == STAKES
     ctx.ob(R2, key, "each-stake*=(1-p), rewards untouched", ok, "staker update is %s" % d, fn=f, sample=d)
     # (c) queue entries of that validator.  Form-agnostic: `queue.iter_mut().filter(p).for_each(|ub| ..)` and
     # `for ub in queue.iter_mut() { if p(ub) { .. } }` are the same loop after normalisation (vlib/inline.py A9,
@@ -304,6 +293,7 @@ def r4(ctx, cfg):
     ctx.ob(R, key, "every-staker-entry-removed", contains(a[2], lambda x: x[0] == "field" and x[2] == "stakers") and rb in cf.reachable_from(rb),
            "STAKES.remove is not inside a loop over validator_info.stakers", fn=f, sample="for delegator in stakers { STAKES.remove((delegator, validator)) }")
     # the non-zero branch updates instead (no removal)
-    ups = store_calls(P, f, STAKES, ("update",))
-    ok = len(ups) == 1 and q.has_cond(q.dominating_conditions(P, f, ups[0][0]), "is_zero", pol=False)
+    from rules import stakes
+    ups = [u for u in stakes.entry_updates(P, F, f) if u.site[0] == f.key]
+    ok = len(ups) == 1 and q.has_cond(q.dominating_conditions(P, f, ups[0].site[1]), "is_zero", pol=False)
     ctx.ob(R, key, "partial-slash-updates-in-place", ok, "the partial-slash branch does not update stakes under !stake.is_zero()", fn=f, sample="else { STAKES.update(..) }")
